@@ -87,30 +87,30 @@ def Shape (p : Str) (ts qs : List Tok) : Prop :=
 
 /-! ### the passes -/
 
-theorem expandAliasGo_false_inert (e : Env) (qs : List Tok) (h : ∀ t ∈ qs, Inert t) :
+theorem expandAliasGo_false_inert (e : Env) (qs : List Tok) (h : ∀ t ∈ qs, t.1 ≠ []) :
     expandAliasGo e false qs = qs := by
   induction qs with
   | nil => rfl
   | cons t rest ih =>
     obtain ⟨sep, text⟩ := t
-    have hne := inert_sep_ne _ (h (sep, text) (by simp))
+    have hne := h (sep, text) (by simp)
     simp only at hne
     simp [expandAliasGo, hne, ih (fun x hx => h x (by simp [hx]))]
 
-theorem expandAlias_id (e : Env) (p : Str) (qs : List Tok) (h : ∀ t ∈ qs, Inert t)
+theorem expandAlias_id (e : Env) (p : Str) (qs : List Tok) (h : ∀ t ∈ qs, t.1 ≠ [])
     (hp1 : p ≠ ['|']) (hp2 : p ≠ "xargs".toList) (hp3 : lookup e.aliases p = none) :
     expandAlias e (([], p) :: qs) = ([], p) :: qs := by
   have hp2' : ¬ p = ['x', 'a', 'r', 'g', 's'] := hp2
   simp [expandAlias, expandAliasGo, hp1, hp2', hp3, expandAliasGo_false_inert e qs h]
 
-theorem map_inert_id (f : Tok → Tok) (qs : List Tok) (h : ∀ t ∈ qs, Inert t) (hf : ∀ t, t.1 ≠ [] → f t = t) :
+theorem map_inert_id (f : Tok → Tok) (qs : List Tok) (h : ∀ t ∈ qs, t.1 ≠ []) (hf : ∀ t, t.1 ≠ [] → f t = t) :
     qs.map f = qs := by
   induction qs with
   | nil => rfl
   | cons t rest ih =>
-    simp [hf t (inert_sep_ne t (h t (by simp))), ih (fun x hx => h x (by simp [hx]))]
+    simp [hf t (h t (by simp)), ih (fun x hx => h x (by simp [hx]))]
 
-theorem expandHome_id (e : Env) (p : Str) (qs : List Tok) (h : ∀ t ∈ qs, Inert t) (hp : p.head? ≠ some '~') :
+theorem expandHome_id (e : Env) (p : Str) (qs : List Tok) (h : ∀ t ∈ qs, t.1 ≠ []) (hp : p.head? ≠ some '~') :
     expandHome e (([], p) :: qs) = ([], p) :: qs := by
   simp only [expandHome, List.map_cons]
   congr 1
@@ -135,42 +135,42 @@ theorem expandEnv_id (e : Env) (p : Str) (qs : List Tok) (h : ∀ t ∈ qs, Iner
           simp [h1, this]
       · exact ih (fun x hx => h x (by simp [hx]))
 
-theorem expandBrace_id (p : Str) (qs : List Tok) (h : ∀ t ∈ qs, Inert t) (hp : ∀ c ∈ p, c ≠ '{') :
+theorem expandBrace_id (p : Str) (qs : List Tok) (h : ∀ t ∈ qs, t.1 ≠ []) (hp : ∀ c ∈ p, c ≠ '{') :
     expandBrace (([], p) :: qs) = .ok (([], p) :: qs) := by
   have hq : expandBrace qs = .ok qs := by
     induction qs with
     | nil => rfl
     | cons t rest ih =>
       obtain ⟨sep, text⟩ := t
-      have hne := inert_sep_ne _ (h (sep, text) (by simp))
+      have hne := h (sep, text) (by simp)
       simp only at hne
       simp [expandBrace, ih (fun x hx => h x (by simp [hx])), Outcome.bind, hne]
   simp [expandBrace, hq, Outcome.bind, needExpandBrace_false p hp]
 
-theorem expandGlobGo_inert (e : Env) (qs : List Tok) (h : ∀ t ∈ qs, Inert t) : expandGlobGo e qs = some qs := by
+theorem expandGlobGo_inert (e : Env) (qs : List Tok) (h : ∀ t ∈ qs, t.1 ≠ []) : expandGlobGo e qs = some qs := by
   induction qs with
   | nil => rfl
   | cons t rest ih =>
     obtain ⟨sep, text⟩ := t
-    have hne := inert_sep_ne _ (h (sep, text) (by simp))
+    have hne := h (sep, text) (by simp)
     simp only at hne
     simp [expandGlobGo, globToken, hne, ih (fun x hx => h x (by simp [hx]))]
 
-theorem expandGlob_id (e : Env) (p : Str) (qs : List Tok) (h : ∀ t ∈ qs, Inert t) (hp : ∀ c ∈ p, c ≠ '*') :
+theorem expandGlob_id (e : Env) (p : Str) (qs : List Tok) (h : ∀ t ∈ qs, t.1 ≠ []) (hp : ∀ c ∈ p, c ≠ '*') :
     expandGlob e (([], p) :: qs) = ([], p) :: qs := by
   have : ¬ ('*' ∈ p) := fun hm => hp '*' hm rfl
   simp [expandGlob, expandGlobGo, globToken, this, expandGlobGo_inert e qs h]
 
-theorem expandRangeGo_inert (qs : List Tok) (h : ∀ t ∈ qs, Inert t) : expandRangeGo qs = some qs := by
+theorem expandRangeGo_inert (qs : List Tok) (h : ∀ t ∈ qs, t.1 ≠ []) : expandRangeGo qs = some qs := by
   induction qs with
   | nil => rfl
   | cons t rest ih =>
     obtain ⟨sep, text⟩ := t
-    have hne := inert_sep_ne _ (h (sep, text) (by simp))
+    have hne := h (sep, text) (by simp)
     simp only at hne
     simp [expandRangeGo, rangeToken, hne, ih (fun x hx => h x (by simp [hx]))]
 
-theorem expandBraceRange_id (p : Str) (qs : List Tok) (h : ∀ t ∈ qs, Inert t) (hp : ∀ c ∈ p, c ≠ '{') :
+theorem expandBraceRange_id (p : Str) (qs : List Tok) (h : ∀ t ∈ qs, t.1 ≠ []) (hp : ∀ c ∈ p, c ≠ '{') :
     expandBraceRange (([], p) :: qs) = ([], p) :: qs := by
   simp [expandBraceRange, expandRangeGo, rangeToken, findRange_none p hp, expandRangeGo_inert qs h]
 
@@ -181,12 +181,12 @@ open Cicada Cicada.TokLemmas
 
 /-- tokens on which both substitution passes do nothing -/
 def NoSubst (t : Tok) : Prop :=
-  t.1 = ['\''] ∨ ((t.1 = ['"'] ∨ t.1 = []) ∧ ∀ c ∈ t.2, c ≠ '$' ∧ c ≠ '`')
+  t.1 = ['\''] ∨ ((t.1 = ['"'] ∨ t.1 = []) ∧ matchBackquote t.2 = none ∧ shouldDoDollar t.2 = false)
 
 theorem inert_noSubst (t : Tok) (h : Inert t) : NoSubst t := by
   rcases h with h | ⟨h1, h2⟩
   · exact Or.inl h
-  · exact Or.inr ⟨Or.inl h1, h2⟩
+  · exact Or.inr ⟨Or.inl h1, matchBackquote_none _ (fun c hc => (h2 c hc).2), shouldDoDollar_false _ (fun c hc => (h2 c hc).1)⟩
 
 theorem substDotGo_none (se : SubstEnv) (ts : List Tok) : ∀ (f idx : Nat), ts.length < f → (∀ t ∈ ts, NoSubst t) →
     substDotGo se f idx ts = .ok [] := by
@@ -201,12 +201,11 @@ theorem substDotGo_none (se : SubstEnv) (ts : List Tok) : ∀ (f idx : Nat), ts.
     | succ f =>
       obtain ⟨sep, tok⟩ := t
       have hrest := ih f (idx + 1) (by simp at hf; omega) (fun x hx => h x (by simp [hx]))
-      rcases h (sep, tok) (by simp) with h1 | ⟨h1, h2⟩
+      rcases h (sep, tok) (by simp) with h1 | ⟨h1, hm, _⟩
       · simp only at h1
         subst h1
         simp [substDotGo, hrest]
-      · simp only at h1 h2
-        have hm := matchBackquote_none tok (fun c hc => (h2 c hc).2)
+      · simp only at h1 hm
         rcases h1 with h1 | h1 <;> subst h1 <;> simp [substDotGo, hm, hrest]
 
 theorem substDollarGo_none (se : SubstEnv) (ts : List Tok) : ∀ (f idx : Nat), ts.length < f → (∀ t ∈ ts, NoSubst t) →
@@ -222,12 +221,11 @@ theorem substDollarGo_none (se : SubstEnv) (ts : List Tok) : ∀ (f idx : Nat), 
     | succ f =>
       obtain ⟨sep, tok⟩ := t
       have hrest := ih f (idx + 1) (by simp at hf; omega) (fun x hx => h x (by simp [hx]))
-      rcases h (sep, tok) (by simp) with h1 | ⟨_, h2⟩
+      rcases h (sep, tok) (by simp) with h1 | ⟨_, _, hm⟩
       · simp only at h1
         subst h1
         simp [substDollarGo, hrest]
-      · simp only at h2
-        have hm := shouldDoDollar_false tok (fun c hc => (h2 c hc).1)
+      · simp only at hm
         simp [substDollarGo, hm, hrest]
 
 theorem joinWith_any_head (sep x : Str) (rest : List Str) (f : Char → Bool) (h : x.any f = true) :
@@ -260,23 +258,24 @@ theorem doExpansion_id (se : SubstEnv) (p : Str) (qs : List Tok) (f : Nat)
       simp only [tokensToLine, List.map_cons]
       apply joinWith_any_head
       simpa [tokenToText] using hl
+    have hqs : ∀ t ∈ qs, t.1 ≠ [] := fun t ht => inert_sep_ne t (hq t ht)
     have hns : ∀ t ∈ ([], p) :: qs, NoSubst t := by
       intro t ht
       simp at ht
       rcases ht with rfl | ht
-      · exact Or.inr ⟨Or.inr rfl, fun c hc => ⟨n3 c hc, n6 c hc⟩⟩
+      · exact Or.inr ⟨Or.inr rfl, matchBackquote_none _ n6, shouldDoDollar_false _ n3⟩
       · exact inert_noSubst t (hq t ht)
     simp only [doExpansion, harith, Bool.false_eq_true, ↓reduceIte]
     split
     · rfl
-    · rw [expandAlias_id se.env p qs hq hp1 hx ha, expandHome_id se.env p qs hq hph,
-        expandEnv_id se.env p qs hq n3, expandBrace_id p qs hq n4]
+    · rw [expandAlias_id se.env p qs hqs hp1 hx ha, expandHome_id se.env p qs hqs hph,
+        expandEnv_id se.env p qs hq n3, expandBrace_id p qs hqs n4]
       simp only [Outcome.bind]
-      rw [expandGlob_id se.env p qs hq n5,
+      rw [expandGlob_id se.env p qs hqs n5,
         substDotGo_none se _ f 0 (by simp; omega) hns]
       simp only [doExpansion.applyUpdates, List.foldl_nil]
       rw [substDollarGo_none se _ f 0 (by simp; omega) hns]
-      simp only [doExpansion.applyUpdates, List.foldl_nil, expandBraceRange_id p qs hq n4]
+      simp only [doExpansion.applyUpdates, List.foldl_nil, expandBraceRange_id p qs hqs n4]
 
 end Cicada.PassLemmas
 
